@@ -36,12 +36,15 @@ checks = {}
 
 checks["C01"] = dict(
     runs=dict(
-        quick=[H("HarnessCrash", crash(2, 1), shards=28, depth=6),
-               H("HarnessCrash", crash(1, 1, pre=2, seg=64, armopen=1), shards=4, depth=4)],
-        thorough=[H("HarnessCrash", crash(2, 1), shards=28, depth=6),
-                  H("HarnessCrash", crash(2, 1, seg=64), shards=28, depth=6, timeout="25m"),
-                  H("HarnessCrash", crash(1, 2, armopen=1, opset=3), shards=56, depth=7, timeout="40m"),
-                  H("HarnessCrash", crash(1, 1, pre=3, seg=64, armopen=1), shards=8, depth=4)]),
+        quick=[H("HarnessCrash", crash(2, 1, opset=1), shards=14, depth=5),
+               H("HarnessCrash", crash(1, 1), shards=8, depth=4),
+               H("HarnessCrash", crash(1, 2, opset=1, crashkind=1, usability=0), shards=8, depth=5),
+               H("HarnessCrash", crash(1, 1, armopen=1, opset=1, seg=64), shards=4, depth=4)],
+        thorough=[H("HarnessCrash", crash(2, 1), shards=42, depth=6, timeout="40m"),
+                  H("HarnessCrash", crash(2, 1, seg=64), shards=42, depth=6, timeout="40m"),
+                  H("HarnessCrash", crash(1, 2, armopen=1, opset=3), shards=56, depth=7, timeout="60m"),
+                  H("HarnessCrash", crash(1, 2, opset=3, crashkind=1), shards=42, depth=6, timeout="40m"),
+                  H("HarnessCrash", crash(1, 1, pre=3, seg=64, armopen=1), shards=28, depth=5, timeout="30m")]),
     required_reach=["crash-verified", "recovered-pre", "recovered-post", "probe-present"],
     bounds=dict(quick="K<=2 operations from {append 1, append 2, DeleteRange(min,max 64-bit symbolic)} then one power loss at any environment call, segment sizes 100 B (2 entries/segment) and 64 B (1 entry/segment), payload 0..1 symbolic bytes, Term<128, start index 1; plus 2 pre-existing segments with crash points inside Open",
                 thorough="as quick plus seg=64 with K=2, two nested crash epochs (crash inside recovery and in the appends after it) with K=1 appends per epoch"),
@@ -52,12 +55,13 @@ checks["C01"] = dict(
 
 checks["C02"] = dict(
     runs=dict(
-        quick=[H("HarnessCrash", crash(2, 1, opset=3), shards=20, depth=6),
-               H("HarnessCrash", crash(1, 2, opset=1, armopen=0, usability=0), shards=28, depth=6),
-               H("HarnessCrash", crash(1, 2, opset=1, armopen=0, pre=1, seg=128), shards=28, depth=6)],
-        thorough=[H("HarnessCrash", crash(2, 1), shards=28, depth=6),
-                  H("HarnessCrash", crash(1, 2, armopen=1, opset=3), shards=56, depth=7, timeout="40m"),
-                  H("HarnessCrash", crash(2, 2, opset=1, armopen=0), shards=56, depth=7, timeout="40m")]),
+        quick=[H("HarnessCrash", crash(1, 2, opset=1, usability=0), shards=14, depth=5),
+               H("HarnessCrash", crash(2, 1, opset=1), shards=14, depth=5),
+               H("HarnessCrash", crash(1, 1, opset=2), shards=4, depth=4)],
+        thorough=[H("HarnessCrash", crash(2, 1), shards=42, depth=6, timeout="40m"),
+                  H("HarnessCrash", crash(1, 2, opset=1, pre=1, seg=128), shards=28, depth=6, timeout="40m"),
+                  H("HarnessCrash", crash(1, 2, armopen=1, opset=3), shards=56, depth=7, timeout="60m"),
+                  H("HarnessCrash", crash(2, 2, opset=1, usability=0), shards=56, depth=7, timeout="60m")]),
     required_reach=["crash-verified", "recovered-pre", "recovered-post"],
     bounds=dict(quick="K<=2 appends (batches of 1 or 2) then a power loss; chains: 2 crash epochs with one append each (stale bytes of the first torn batch left in the file)",
                 thorough="adds DeleteRange, crash points inside Open, and two appends per epoch over two epochs"),
@@ -68,11 +72,12 @@ checks["C02"] = dict(
 
 checks["C03"] = dict(
     runs=dict(
-        quick=[H("HarnessCrash", crash(2, 1, seg=64, armopen=1, opset=1), shards=28, depth=6),
-               H("HarnessCrash", crash(1, 1, pre=2, seg=100, armopen=1, opset=6), shards=8, depth=5)],
-        thorough=[H("HarnessCrash", crash(2, 1, seg=64, armopen=1), shards=40, depth=6, timeout="30m"),
-                  H("HarnessCrash", crash(2, 1, seg=100, armopen=1), shards=40, depth=6, timeout="30m"),
-                  H("HarnessCrash", crash(1, 2, armopen=1, opset=3, seg=64), shards=56, depth=7, timeout="40m")]),
+        quick=[H("HarnessCrash", crash(2, 1, seg=64, armopen=1, opset=1), shards=14, depth=5),
+               H("HarnessCrash", crash(1, 1, pre=1, seg=128, armopen=1, opset=4), shards=6, depth=4)],
+        thorough=[H("HarnessCrash", crash(2, 1, seg=64, armopen=1), shards=42, depth=6, timeout="40m"),
+                  H("HarnessCrash", crash(2, 1, seg=100, armopen=1), shards=42, depth=6, timeout="40m"),
+                  H("HarnessCrash", crash(1, 2, armopen=1, opset=3, seg=64), shards=56, depth=7, timeout="60m"),
+                  H("HarnessCrash", crash(1, 2, opset=1, crashkind=1, armopen=1), shards=42, depth=6, timeout="40m")]),
     required_reach=["crash-verified"],
     bounds=dict(quick="every crash point of a first-ever Open plus K<=2 appends with one entry per segment (every append seals and rotates), and of a tail truncation (ForceSeal) on a 2-entry log; after recovery: append, stable Set, head truncation, no-op truncation, close, reopen must all succeed",
                 thorough="adds DeleteRange to the alphabet, 2 entries per segment, and a crash inside recovery (2 epochs)"),
@@ -83,12 +88,13 @@ checks["C03"] = dict(
 
 checks["C04"] = dict(
     runs=dict(
-        quick=[H("HarnessCrash", crash(1, 1, pre=3, seg=64, opset=4), shards=4, depth=4),
-               H("HarnessCrash", crash(2, 1, pre=2, seg=100, script=31), shards=28, depth=6),
-               H("HarnessCrash", crash(1, 1, pre=2, seg=128, opset=4), shards=8, depth=4)],
-        thorough=[H("HarnessCrash", crash(2, 1, pre=3, seg=64, opset=5), shards=40, depth=6, timeout="30m"),
-                  H("HarnessCrash", crash(2, 1, pre=3, seg=100, opset=5), shards=40, depth=6, timeout="30m"),
-                  H("HarnessCrash", crash(3, 1, pre=2, seg=100, opset=5), shards=56, depth=7, timeout="40m")]),
+        quick=[H("HarnessCrash", crash(1, 1, pre=3, seg=64, opset=4), shards=14, depth=5),
+               H("HarnessCrash", crash(1, 1, pre=2, seg=128, opset=4), shards=4, depth=4),
+               H("HarnessCrash", crash(2, 1, pre=1, seg=128, script=31), shards=14, depth=5)],
+        thorough=[H("HarnessCrash", crash(2, 1, pre=3, seg=64, opset=5), shards=42, depth=6, timeout="40m"),
+                  H("HarnessCrash", crash(2, 1, pre=2, seg=100, script=31), shards=28, depth=6, timeout="40m"),
+                  H("HarnessCrash", crash(2, 1, pre=2, seg=128, opset=5), shards=42, depth=6, timeout="40m"),
+                  H("HarnessCrash", crash(3, 1, pre=2, seg=100, opset=5), shards=56, depth=7, timeout="60m")]),
     required_reach=["crash-verified", "delete", "recovered-post", "recovered-pre"],
     bounds=dict(quick="a 3-segment log (one entry per segment) and a 2-entry log, DeleteRange(min,max) with both bounds 64-bit symbolic, crash at any call inside it or in the append that follows; re-appended entries after a tail truncation carry fresh symbolic contents",
                 thorough="two operations after the pre-built log from {append, DeleteRange}, 1 and 2 entries per segment, and three operations on the 2-entry log"),
@@ -99,12 +105,12 @@ checks["C04"] = dict(
 
 checks["C13"] = dict(
     runs=dict(
-        quick=[H("HarnessCrash", crash(1, 1, pre=3, seg=64, opset=4, armopen=0), shards=4, depth=4),
-               H("HarnessCrash", crash(2, 1, seg=64, script=13), shards=16, depth=6),
-               H("HarnessSeq", {"K": 2, "bmax": 100, "seg": 64, "c13": 1}, shards=8, depth=4)],
-        thorough=[H("HarnessCrash", crash(2, 1, pre=3, seg=64, opset=5), shards=40, depth=6, timeout="30m"),
-                  H("HarnessCrash", crash(1, 2, seg=64, opset=5, armopen=1), shards=56, depth=7, timeout="40m"),
-                  H("HarnessSeq", {"K": 3, "bmax": 100, "seg": 64, "c13": 1}, shards=28, depth=5)]),
+        quick=[H("HarnessCrash", crash(1, 1, pre=3, seg=64, opset=4), shards=14, depth=5),
+               H("HarnessCrash", crash(2, 1, seg=64, script=13), shards=14, depth=5),
+               H("HarnessSeq", {"K": 2, "bmax": 100, "seg": 64, "c13": 1}, shards=4, depth=4)],
+        thorough=[H("HarnessCrash", crash(2, 1, pre=3, seg=64, opset=5), shards=42, depth=6, timeout="40m"),
+                  H("HarnessCrash", crash(1, 2, seg=64, opset=5, armopen=1), shards=56, depth=7, timeout="60m"),
+                  H("HarnessSeq", {"K": 3, "bmax": 100, "seg": 64, "c13": 1}, shards=28, depth=5, timeout="30m")]),
     required_reach=["crash-verified", "c13-checked"],
     bounds=dict(quick="crash family: as C04/C01 with one entry per segment; sequential family: K<=3 operations, after every DeleteRange the directory holds exactly the live segments' files; Create never hits an existing name in any epoch, IDs in every committed state distinct and below NextSegmentID",
                 thorough="two operations after a 3-segment log; crash inside recovery"),
@@ -115,7 +121,8 @@ checks["C13"] = dict(
 
 checks["C05"] = dict(
     runs=dict(
-        quick=[H("HarnessSeq", {"K": 3, "bmax": 100}, shards=28, depth=5),
+        quick=[H("HarnessSeq", {"K": 2, "bmax": 100}, shards=4, depth=4),
+               H("HarnessSeq", {"K": 3, "bmax": 100, "ops": 4}, shards=14, depth=5),
                H("HarnessSeq", {"K": 2, "bmax": 100, "seg": 64}, shards=4, depth=4)],
         thorough=[H("HarnessSeq", {"K": 3, "bmax": 100}, shards=28, depth=5),
                   H("HarnessSeq", {"K": 3, "bmax": 100, "seg": 64}, shards=28, depth=5),
@@ -133,12 +140,14 @@ checks["C08"] = dict(
     runs=dict(
         quick=[H("HarnessStable"),
                H("HarnessStableBolt", {}, pkg="harness/hfs"),
+               H("HarnessMetaRecord", {}, pkg="harness/hfs"),
                H("HarnessCrash", crash(2, 1, opset=9), shards=16, depth=6)],
         thorough=[H("HarnessStable"),
                   H("HarnessStableBolt", {}, pkg="harness/hfs"),
+                  H("HarnessMetaRecord", {}, pkg="harness/hfs"),
                   H("HarnessCrash", crash(3, 1, opset=9), shards=40, depth=6, timeout="30m"),
                   H("HarnessCrash", crash(2, 1, opset=13, seg=64), shards=40, depth=6, timeout="30m")]),
-    required_reach=["stable-checked", "stable-bolt-checked", "stable-set", "crash-verified"],
+    required_reach=["stable-checked", "stable-bolt-checked", "meta-record-checked", "stable-set", "crash-verified"],
     bounds=dict(quick="keys of 1..2 symbolic bytes, values of 6..9 symbolic bytes, uint64 values 64-bit symbolic; interleaved with a sealing append, a truncation and a reopen; crash family: K<=2 operations from {append, Set} then a power loss at any call - an acknowledged Set is read back after recovery",
                 thorough="K<=3 and DeleteRange in the alphabet"),
     assumptions=COMMON_ASSUME + ["MetaStore model: SetStable atomic and durable on return (bbolt's own crash safety is trusted, not encoded)"],
@@ -148,7 +157,7 @@ checks["C08"] = dict(
 
 checks["C10"] = dict(
     runs=dict(
-        quick=[H("HarnessFault", {"K": 2, "F": 1}, shards=28, depth=6)],
+        quick=[H("HarnessFault", {"K": 2, "F": 1}, shards=14, depth=5)],
         thorough=[H("HarnessFault", {"K": 2, "F": 1}, shards=28, depth=6),
                   H("HarnessFault", {"K": 2, "F": 1, "seg": 64}, shards=28, depth=6, timeout="30m"),
                   H("HarnessFault", {"K": 2, "F": 2}, shards=56, depth=7, timeout="40m"),
@@ -259,17 +268,19 @@ checks["C09"] = dict(
     runs=dict(
         quick=[H("HarnessFormatWrite", {"maxplen": 9, "limit": 120}, pkg="harness/hseg", shards=8, depth=4),
                H("HarnessFormatRead", {"maxplen": 3}, pkg="harness/hseg", shards=4, depth=4),
-               H("HarnessGolden", {}, pkg="harness/hseg")],
-        thorough=[H("HarnessFormatWrite", {"maxplen": 9, "limit": 136, "maxbatches": 3}, pkg="harness/hseg", shards=28, depth=5, timeout="30m"),
+               H("HarnessGolden", {}, pkg="harness/hseg"),
+               H("HarnessMetaRecord", {}, pkg="harness/hfs")],
+        thorough=[H("HarnessMetaRecord", {}, pkg="harness/hfs"),
+                  H("HarnessFormatWrite", {"maxplen": 9, "limit": 136, "maxbatches": 3}, pkg="harness/hseg", shards=28, depth=5, timeout="30m"),
                   H("HarnessFormatWrite", {"maxplen": 9, "limit": 4096, "maxbatches": 2}, pkg="harness/hseg", shards=8, depth=4),
                   H("HarnessFormatRead", {"maxplen": 9}, pkg="harness/hseg", shards=28, depth=5, timeout="30m"),
                   H("HarnessGolden", {}, pkg="harness/hseg")]),
-    required_reach=["format-write-checked", "force-sealed", "sealed-by-size", "format-read-checked", "read-sealed", "read-tail", "golden-checked"],
+    required_reach=["format-write-checked", "force-sealed", "sealed-by-size", "format-read-checked", "read-sealed", "read-tail", "golden-checked", "meta-record-checked"],
     bounds=dict(quick="1..2 batches of 1..2 entries, payload lengths 0..9 (every padding residue) with symbolic bytes, BaseIndex/SegmentID/Codec 64-bit symbolic, sealing by size (120-byte limit) or ForceSeal or not at all; reader side: reference images of 1..2 batches, payloads 0..3 bytes, sealed and unsealed; golden directory written by the pinned version",
                 thorough="up to 3 batches; reader payloads 0..9 bytes"),
     assumptions=["ideal CRC (the commit CRC is compared as the checksum of the same byte sequence, collision-free); castagnoliTable is created by crc32.MakeTable(crc32.Castagnoli) (checked concretely by the stub)",
                  "README ambiguity: the first commit's CRC covers the file header (README says 'all bytes appended since the last fsync' and also 'just after the file header'; the pinned behaviour and golden files include the header)"],
-    outside=["BoltDB file layout of wal-meta.db (bbolt is not encodable); the JSON metadata record is checked by the golden fixture only", "symbolic file names beyond the fixed-width pattern comparison"],
+    outside=["BoltDB file layout of wal-meta.db (bbolt's pages are not encoded: the metadata record is checked as key 'm' in bucket 'wal-meta' of the bbolt model, JSON written/parsed by the engine's encoding/json stub following encoding/json's rules)", "symbolic file names beyond the fixed-width pattern comparison"],
     level_text="Differential symbolic execution of the real segment writer/reader against an encoder written from README.md only: file images are compared byte for byte as one solver term per path",
     level_note="ideal CRC; bounded batch shapes")
 
